@@ -256,6 +256,17 @@ def chunk_decoder_faults(chunk, acc):
 
     from dissect.cobaltstrike import c2
 
+    # the same packet sent more than once (a fixed IV makes the copies byte-identical) is reported every time, within
+    # one message and across messages of the same decoder
+    acc.states += 1
+    dec = c2.C2Http(bconfig, aes_rand=r)
+    for rnd, order in enumerate(((0, 0, 1), (0, 1, 0), (1, 1, 1), (0, 0, 1))):
+        acc.transitions += 1
+        got = call(lambda: [(p.counter, bytes(p.data)) for p in dec.iter_recover_http(message([pk[i] for i in order]))])
+        want = [(7 + i, (b"first", b"second packet, longer than one block", b"")[i]) for i in order]
+        acc.case(("repeated", rnd, order), nontrivial=True, outcome=str(got)[:60])
+        if got != want:
+            acc.fail("C05/decoder/repeated-packet-not-reported", {"kind": "decoder_faults", "seed": acc.seed, "order": list(order), "round": rnd}, str(want), str(got)[:300])
     for n in (1, 2, 3):
         acc.states += 1
         dec = c2.C2Http(bconfig, aes_rand=r)
